@@ -42,6 +42,7 @@ def step? : Sexp → Option Step
     some (.reopen (← bool? a) (← bool? b) (← bool? c) t f)
   | .list [.atom "close", a] => do some (.close (← bool? a))
   | .list [.atom "doer"] => some .doer
+  | .list [.atom "exists"] => some .exists
   | _ => none
 
 def outStage (s : St) (r : Except Exn Unit) : Sexp :=
@@ -49,6 +50,7 @@ def outStage (s : St) (r : Except Exn Unit) : Sexp :=
     | .ok _ => tag "ok" [match s.path with | some p => outPath p | none => .atom "-"]
     | .error .filerError => tag "raise" [sym "FilerError"]
     | .error .osError => tag "raise" [sym "OSError"]
+    | .error .typeError => tag "raise" [sym "TypeError"]
   .list [res, outSnap s.fs]
 
 def runSteps (c : Cfg) (s : St) : List Step → List Sexp
@@ -70,12 +72,16 @@ def endState (c : Cfg) (s : St) : List Step → St
 
 def handle : Sexp → Sexp
   | .list [.atom "filer", name, base, temp, clean, filed, ext, fext, head, temph, .list init, .list steps, entry] =>
+    let badN := (match name with | .atom "-" => true | _ => false)
+    let badB := (match base with | .atom "-" => true | _ => false)
+    let name := (match name with | .atom "-" => .atom "#" | x => x)
+    let base := (match base with | .atom "-" => .atom "#" | x => x)
     match bytes? name, bytes? base, bool? temp, bool? clean, bool? filed, bool? ext, bytes? fext, path? head, path? temph,
         init.mapM entry?, steps.mapM step? with
     | some name, some base, some temp, some clean, some filed, some ext, some fext, some head, some temph, some init, some steps =>
-      let c : Cfg := ⟨name, base, fext, temp, filed, ext, head, temph⟩
+      let c : Cfg := ⟨name, base, fext, temp, filed, ext, head, temph, badN, badB⟩
       let s0 : St := fresh c init
-      let (s1, r) := reopen c s0 false false clean none none
+      let (s1, r) := construct c s0 clean
       match r with
       | .ok _ =>
         let body := runSteps c s1 steps
